@@ -8,6 +8,7 @@ verus! {
 global size_of usize == 8;
 //@include lib/checksum_spec.rs
 //@include lib/checksum_fns.rs
+//@include lib/ext_ioerror.rs
 //@include lib/io_model.rs
 //@include lib/hash_fns.rs
 //@include lib/delta_fns.rs
